@@ -11,6 +11,8 @@ mod field;
 mod konst;
 #[cfg(feature = "ark")]
 mod ark_only;
+#[cfg(feature = "ark")]
+mod bls;
 
 use std::io::Write;
 
